@@ -398,7 +398,7 @@ def run_history_c24(ch, tr: Trace) -> None:
 
 WORKLOADS = [
     Workload(
-        name="history", run=run_history_c24, runs={"quick": 5_000, "thorough": 400_000}, chunk=100, run_timeout=30.0,
+        name="history", run=run_history_c24, runs={"quick": 12_000, "thorough": 400_000}, chunk=100, run_timeout=30.0,
         real=["porepy.grids.md_grid.MixedDimensionalGrid (add_subdomains, add_interface, remove_subdomain, replace_subdomains_and_interfaces, all listing/navigation queries, argsort_grids)",
               "pp.BoundaryGrid, pp.MortarGrid (update_mortar/update_primary/update_secondary on meshed interfaces), pp.meshing.cart_grid, pp.refinement.remesh_1d"],
         stub=["synthetic interfaces use MortarGrid objects without projections (container-level operations only)"],
